@@ -18,6 +18,7 @@ using RX = ada::url_pattern_regex::std_regex_provider;
 using Pattern = ada::url_pattern<RX>;
 using OStr = std::optional<std::string>;
 using Groups = std::map<std::string, OStr>;
+static const size_t DISTINCT_CAP = 1000000;  // per shard: bounds memory; the count is then a lower bound
 
 static Reporter R;
 static std::string PROP;
@@ -242,6 +243,81 @@ static Denote denote(const Spec& in) {
   return d;
 }
 
+// ------------------------------------------------------------------------------------------------ class tags
+// Narrow classes: <family>/<component>:<what>:<tag>.  The component is the one whose value alone reproduces the
+// disagreement (when one does), the tag describes the literal value (and, for pathname / port, the context that
+// selects the canonicalisation), computed from the case itself so that a replay yields the same class.
+static std::string strip_tab_nl(std::string_view v) {
+  std::string o;
+  for (char c : v) if (c != '\t' && c != '\n' && c != '\r') o.push_back(c);
+  return o;
+}
+static std::string feature(std::string_view v) {
+  if (v.empty()) return "empty";
+  auto has = [&](char c) { return v.find(c) != std::string_view::npos; };
+  if (has('\t') || has('\n') || has('\r')) return "tab-nl";
+  if (static_cast<unsigned char>(v.front()) <= 0x20 || static_cast<unsigned char>(v.back()) <= 0x20) return "edge-c0-space";
+  if (v.size() >= 2 && v[0] == '/' && v[1] == '/') return "double-slash";
+  if (v.front() == '?') return "leading-qmark";
+  if (v.front() == '#') return "leading-hash";
+  static const std::pair<char, const char*> named[] = {{'?', "qmark"}, {'#', "hash"}, {'\\', "backslash"}, {':', "colon"}, {'@', "at"}, {'[', "bracket"}, {']', "bracket"}, {'%', "percent"}};
+  for (auto& [c, n] : named) if (has(c)) return n;
+  for (unsigned char c : v) if (c < 0x20 || c == 0x7f) return "c0";
+  for (unsigned char c : v) if (c >= 0x80) return "non-ascii";
+  if (has(' ')) return "space";
+  if (has('.')) return "dot";
+  for (unsigned char c : v) if (c >= 'A' && c <= 'Z') return "upper";
+  if (std::all_of(v.begin(), v.end(), [](unsigned char c) { return c >= '0' && c <= '9'; })) return "digits";
+  return "plain";
+}
+static std::string delim_tag(std::string_view v, char delim, const char* name) {
+  std::string t = strip_tab_nl(v);
+  if (!t.empty() && t[0] == delim) return name;
+  return feature(v);
+}
+// tag of a pathname value: the canonicalisation kind and, for the opaque kind, the shape of the value
+static std::string pathname_tag(const std::string& kind, std::string_view literal) {
+  if (kind == "special") return kind + "/" + feature(literal);
+  if (kind == "file") return "file-scheme";
+  std::string v = strip_tab_nl(literal);
+  if (v.size() >= 2 && v[0] == '/' && v[1] == '/') return kind + "/double-slash";
+  if (!v.empty() && v[0] == '/') return kind + "/leading-slash";
+  if (!v.empty() && (static_cast<unsigned char>(v.front()) <= 0x20 || static_cast<unsigned char>(v.back()) <= 0x20)) return kind + "/edge-c0-space";
+  return kind + "/" + feature(literal);
+}
+static std::string port_tag(const OStr& canonical_protocol, bool protocol_present, std::string_view port_literal) {
+  // the protocol only matters for the default-port logic, i.e. for all-digit values
+  if (feature(port_literal) != "digits") return feature(port_literal);
+  std::string p = !protocol_present ? "none" : (canonical_protocol && rp::special_scheme(*canonical_protocol)) ? *canonical_protocol : "other";
+  return "protocol-" + p + "/" + feature(port_literal);
+}
+// pattern construction: tag of component k from the reference's processed init
+static std::string tag_construct(const rp::Expect& E, int k) {
+  if (!E.have_processed) return "init";
+  const std::string& raw = *E.processed.c[k];
+  std::string lit = E.literal[k].value_or(raw);
+  if (k == 5) {
+    std::string kind = !E.pathname_special.has_value() ? "unknown" : *E.pathname_special ? (E.protocol_canon && *E.protocol_canon == "file" ? "file" : "special") : "opaque";
+    return pathname_tag(kind, lit);
+  }
+  if (k == 4) return port_tag(E.protocol_canon, E.protocol_canon.has_value(), lit);
+  if (k == 6) return delim_tag(lit, '?', "leading-qmark");
+  if (k == 7) return delim_tag(lit, '#', "leading-hash");
+  return feature(lit);
+}
+// "url" processing: tag of component k of an input dictionary; dg = refpattern's diagnostics of processing d
+static std::string tag_url(const Dict& d, int k, const rp::Diag& dg) {
+  OStr proto = dg.result_protocol;
+  if (k == 5) {
+    std::string kind = dg.pathname_special ? "special" : "opaque";
+    return pathname_tag(kind, dg.pathname_seen ? dg.pathname_input : d.c[5].value_or(""));
+  }
+  if (k == 4) return port_tag(proto, !dg.result_protocol.empty(), d.c[4].value_or(""));
+  if (k == 6) return delim_tag(d.c[6].value_or(""), '?', "leading-qmark");
+  if (k == 7) return delim_tag(d.c[7].value_or(""), '#', "leading-hash");
+  return feature(d.c[k].value_or(""));
+}
+
 // ================================================================================================ C14
 static std::string wit14(const Spec& p, const Spec* in) {
   JObj o;
@@ -279,7 +355,19 @@ static void check_match(const Spec& ps, Pattern& off, Pattern& on, const Spec& i
   if (a.exec_err || a.test_err) viol(std::string("C14/inputs/") + shape(in) + ":unexpected-error", ctx + "test()/exec() reported an error", w, sz);
   // (2) the reported inputs
   bool denotes = in.is_str ? (dn.ada_ok || dn.ref_ok) : dn.ref_ok;
-  if (a.present) {
+  if (!denotes && (a.present || a.test_val)) {
+    // an input that denotes no URL can never match
+    std::string tag = shape(in);
+    if (!in.is_str) {
+      // name the member whose processing should have thrown
+      int k = -1;
+      for (int i = 0; i < 8 && k < 0; i++)
+        if (in.d.c[i]) { Spec one; one.d.c[i] = in.d.c[i]; if ((i == 4 || i == 5) && in.d.c[0]) one.d.c[0] = in.d.c[0]; if (!denote(one).ref_ok) k = i; }
+      tag += k >= 0 ? std::string(":") + CN[k] + ":" + tag_url(in.d, k, dn.dg) : std::string(in.d.base ? ":baseURL" : ":init");
+    } else if (!in.base_arg) tag += ":relative-without-base";
+    viol("C14/inputs/no-url:" + tag, ctx + "the input denotes no URL (" + (in.is_str ? "ada::parse and the URL Standard model reject it" : "process a URLPatternInit throws") + ") but test()=" +
+         (a.test_val ? "true" : "false") + " and exec() " + (a.present ? "returns a result (pathname.input=\"" + show(a.in[5]) + "\")" : "returns null"), w, sz);
+  } else if (a.present) {
     R.nontrivial++;
     if (!a.inputs_ok) viol("C14/inputs/inputs-list", ctx + "result.inputs is not the argument list", w, sz);
     if (in.is_str) {
@@ -292,15 +380,13 @@ static void check_match(const Spec& ps, Pattern& off, Pattern& on, const Spec& i
           viol(std::string("C14/inputs/") + CN[k] + ":refurl", ctx + CN[k] + ".input=\"" + show(a.in[k]) + "\" but the URL Standard model gives \"" + show(dn.ref[k]) + "\"", w, sz);
       }
     } else {
-      if (!dn.ref_ok) viol("C14/inputs/no-url:dict", ctx + "exec() returned a result but process a URLPatternInit (type url) throws", w, sz);
-      else
-        for (int k = 0; k < 8; k++)
-          if (a.in[k] != dn.ref[k])
-            viol(std::string("C14/inputs/") + CN[k] + ":dict", ctx + CN[k] + ".input=\"" + show(a.in[k]) + "\" but the Standard's canonical value is \"" + show(dn.ref[k]) + "\"", w, sz);
+      for (int k = 0; k < 8; k++)
+        if (a.in[k] != dn.ref[k])
+          viol(std::string("C14/inputs/") + CN[k] + ":dict:" + tag_url(in.d, k, dn.dg), ctx + CN[k] + ".input=\"" + show(a.in[k]) + "\" but the Standard's canonical value is \"" + show(dn.ref[k]) + "\"", w, sz);
     }
     uint64_t h = hash64(show_spec(ps), 11);
     for (int k = 0; k < 8; k++) { h = mix64(h ^ hash64(a.in[k], k)); h = mix64(h ^ hash64(show_groups(a.g[k]), 100 + k)); }
-    R.outcome(h);
+    if (R.distinct.size() < DISTINCT_CAP) R.outcome(h);
   }
   // (3) shortcut independence, whole pattern
   const std::array<std::string, 8>* expc = nullptr;
@@ -336,8 +422,6 @@ static void check_match(const Spec& ps, Pattern& off, Pattern& on, const Spec& i
       if (m0 && c0->group_name_list.size() != m0->size())
         viol(std::string("C14/shortcut/") + CN[k] + ":group-count", ctx + CN[k] + " component: " + std::to_string(c0->group_name_list.size()) + " names for " + std::to_string(m0->size()) + " captured values", w, sz);
     }
-  // an input that denotes no URL can never match
-  if (!denotes && (a.present || a.test_val)) viol(std::string("C14/inputs/no-url:match:") + shape(in), ctx + "input denotes no URL but the pattern matches", w, sz);
 }
 
 struct Input { Spec spec; Denote dn; };
@@ -505,20 +589,22 @@ static void run_c14(const Args& A, std::map<std::string, std::string>& extra) {
   { Dict d; run_assignment(d); }
   for (int k = 0; k < 8; k++)
     for (size_t i = 1; i < M[k].size(); i++) { Dict d; d.c[k] = M[k][i]; run_assignment(d); }
-  // every unordered pair: reduced menu (quick) / full menu (thorough)
-  for (int k1 = 0; k1 < 8; k1++)
-    for (int k2 = k1 + 1; k2 < 8; k2++) {
-      std::vector<int> i1, i2;
-      if (T) { for (size_t i = 1; i < M[k1].size(); i++) i1.push_back(int(i)); for (size_t i = 1; i < M[k2].size(); i++) i2.push_back(int(i)); }
-      else { i1 = reduced_menu(); i2 = reduced_menu(); }
-      for (int a : i1) for (int b : i2) { Dict d; d.c[k1] = M[k1][a]; d.c[k2] = M[k2][b]; run_assignment(d); }
-    }
-  // thorough: every unordered triple with the reduced menu
-  if (T)
-    for (int k1 = 0; k1 < 8; k1++) for (int k2 = k1 + 1; k2 < 8; k2++) for (int k3 = k2 + 1; k3 < 8; k3++)
-      for (int a : reduced_menu()) for (int b : reduced_menu()) for (int c : reduced_menu()) {
-        Dict d; d.c[k1] = M[k1][a]; d.c[k2] = M[k2][b]; d.c[k3] = M[k3][c]; run_assignment(d);
+  // every unordered pair of components x every pair of menu values (both tiers: it is cheap enough)
+  auto full = [&](int k) { std::vector<int> v; for (size_t i = 1; i < M[k].size(); i++) v.push_back(int(i)); return v; };
+  std::string pairs = A.get("pairs", "full"), triples = A.get("triples", T ? "full" : "reduced");
+  if (pairs != "none")
+    for (int k1 = 0; k1 < 8; k1++)
+      for (int k2 = k1 + 1; k2 < 8; k2++) {
+        std::vector<int> i1 = pairs == "full" ? full(k1) : reduced_menu(), i2 = pairs == "full" ? full(k2) : reduced_menu();
+        for (int a : i1) for (int b : i2) { Dict d; d.c[k1] = M[k1][a]; d.c[k2] = M[k2][b]; run_assignment(d); }
       }
+  // every unordered triple: 6-value reduced menu (quick) / full menu (thorough)
+  if (triples != "none")
+    for (int k1 = 0; k1 < 8; k1++) for (int k2 = k1 + 1; k2 < 8; k2++) for (int k3 = k2 + 1; k3 < 8; k3++) {
+      std::vector<int> i1 = triples == "full" ? full(k1) : reduced_menu(), i2 = triples == "full" ? full(k2) : reduced_menu(), i3 = triples == "full" ? full(k3) : reduced_menu();
+      for (int a : i1) for (int b : i2) for (int c : i3) { Dict d; d.c[k1] = M[k1][a]; d.c[k2] = M[k2][b]; d.c[k3] = M[k3][c]; run_assignment(d); }
+    }
+  extra["pairs"] = jstr(pairs); extra["triples"] = jstr(triples);
   R.count("patterns", g_patterns);
   R.count("patterns_constructed", g_pat_ok);
   R.count("patterns_rejected", g_pat_fail);
@@ -540,80 +626,6 @@ static std::string esc_literal(std::string_view v) {  // write a literal as a pa
   }
   return o;
 }
-// Narrow classes: <family>/<component>:<what>:<tag>.  The component is the one whose value alone reproduces the
-// disagreement (when one does), the tag describes the literal value (and, for pathname / port, the context that
-// selects the canonicalisation), computed from the case itself so that a replay yields the same class.
-static std::string strip_tab_nl(std::string_view v) {
-  std::string o;
-  for (char c : v) if (c != '\t' && c != '\n' && c != '\r') o.push_back(c);
-  return o;
-}
-static std::string feature(std::string_view v) {
-  if (v.empty()) return "empty";
-  auto has = [&](char c) { return v.find(c) != std::string_view::npos; };
-  if (has('\t') || has('\n') || has('\r')) return "tab-nl";
-  if (static_cast<unsigned char>(v.front()) <= 0x20 || static_cast<unsigned char>(v.back()) <= 0x20) return "edge-c0-space";
-  if (v.size() >= 2 && v[0] == '/' && v[1] == '/') return "double-slash";
-  if (v.front() == '?') return "leading-qmark";
-  if (v.front() == '#') return "leading-hash";
-  static const std::pair<char, const char*> named[] = {{'?', "qmark"}, {'#', "hash"}, {'\\', "backslash"}, {':', "colon"}, {'@', "at"}, {'[', "bracket"}, {']', "bracket"}, {'%', "percent"}};
-  for (auto& [c, n] : named) if (has(c)) return n;
-  for (unsigned char c : v) if (c < 0x20 || c == 0x7f) return "c0";
-  for (unsigned char c : v) if (c >= 0x80) return "non-ascii";
-  if (has(' ')) return "space";
-  if (has('.')) return "dot";
-  for (unsigned char c : v) if (c >= 'A' && c <= 'Z') return "upper";
-  if (std::all_of(v.begin(), v.end(), [](unsigned char c) { return c >= '0' && c <= '9'; })) return "digits";
-  return "plain";
-}
-static std::string delim_tag(std::string_view v, char delim, const char* name) {
-  std::string t = strip_tab_nl(v);
-  if (!t.empty() && t[0] == delim) return name;
-  return feature(v);
-}
-// tag of a pathname value: the canonicalisation kind and, for the opaque kind, the shape of the value
-static std::string pathname_tag(const std::string& kind, std::string_view literal) {
-  if (kind == "special") return kind + "/" + feature(literal);
-  if (kind == "file") return "file-scheme";
-  std::string v = strip_tab_nl(literal);
-  if (v.size() >= 2 && v[0] == '/' && v[1] == '/') return kind + "/double-slash";
-  if (!v.empty() && v[0] == '/') return kind + "/leading-slash";
-  if (!v.empty() && (static_cast<unsigned char>(v.front()) <= 0x20 || static_cast<unsigned char>(v.back()) <= 0x20)) return kind + "/edge-c0-space";
-  return kind + "/" + feature(literal);
-}
-static std::string port_tag(const OStr& canonical_protocol, bool protocol_present, std::string_view port_literal) {
-  // the protocol only matters for the default-port logic, i.e. for all-digit values
-  if (feature(port_literal) != "digits") return feature(port_literal);
-  std::string p = !protocol_present ? "none" : (canonical_protocol && rp::special_scheme(*canonical_protocol)) ? *canonical_protocol : "other";
-  return "protocol-" + p + "/" + feature(port_literal);
-}
-// pattern construction: tag of component k from the reference's processed init
-static std::string tag_construct(const rp::Expect& E, int k) {
-  if (!E.have_processed) return "init";
-  const std::string& raw = *E.processed.c[k];
-  std::string lit = E.literal[k].value_or(raw);
-  if (k == 5) {
-    std::string kind = !E.pathname_special.has_value() ? "unknown" : *E.pathname_special ? (E.protocol_canon && *E.protocol_canon == "file" ? "file" : "special") : "opaque";
-    return pathname_tag(kind, lit);
-  }
-  if (k == 4) return port_tag(E.protocol_canon, E.protocol_canon.has_value(), lit);
-  if (k == 6) return delim_tag(lit, '?', "leading-qmark");
-  if (k == 7) return delim_tag(lit, '#', "leading-hash");
-  return feature(lit);
-}
-// "url" processing: tag of component k of an input dictionary; dg = refpattern's diagnostics of processing d
-static std::string tag_url(const Dict& d, int k, const rp::Diag& dg) {
-  OStr proto = dg.result_protocol;
-  if (k == 5) {
-    std::string kind = dg.pathname_special ? "special" : "opaque";
-    return pathname_tag(kind, dg.pathname_seen ? dg.pathname_input : d.c[5].value_or(""));
-  }
-  if (k == 4) return port_tag(proto, !dg.result_protocol.empty(), d.c[4].value_or(""));
-  if (k == 6) return delim_tag(d.c[6].value_or(""), '?', "leading-qmark");
-  if (k == 7) return delim_tag(d.c[7].value_or(""), '#', "leading-hash");
-  return feature(d.c[k].value_or(""));
-}
-
 static std::string wit15(const char* sub, const Spec& s) {
   JObj o;
   o.str("kind", "pattern").str("prop", "C15").str("sub", sub);
@@ -695,7 +707,7 @@ static void c15_construct(const Spec& ps) {
     if (E.pattern[k] && *E.pattern[k] != s[k])
       viol(fam + CN[k] + ":pattern-string:" + tag_construct(E, k), ctx + CN[k] + " pattern string \"" + show(s[k]) + "\" but the Standard gives \"" + show(*E.pattern[k]) + "\"", w, sz);
   }
-  R.outcome(h);
+  if (R.distinct.size() < DISTINCT_CAP) R.outcome(h);
 }
 
 // (b) "url"-type canonical values seen through exec() on the all-wildcard pattern
@@ -749,7 +761,7 @@ static void c15_url(const Dict& d) {
     Groups want{{"0", o.in[k]}};
     if (o.g[k] != want) viol(std::string("C15/canon/") + CN[k] + ":url-group", ctx + CN[k] + ".groups=" + show_groups(o.g[k]) + " for a wildcard component", w, sz);
   }
-  R.outcome(h);
+  if (R.distinct.size() < DISTINCT_CAP) R.outcome(h);
 }
 
 static const std::vector<std::string>& bases15() {
@@ -965,7 +977,7 @@ static void run_wpt(const std::string& path, int sh, int ns, std::map<std::strin
 static void run_c15(const Args& A, std::map<std::string, std::string>& extra) {
   const bool T = !A.quick();
   const int sh = A.shard, ns = A.nshards;
-  int k = int(A.geti("k", T ? 4 : 3));
+  int k = int(A.geti("k", T ? 5 : 4));
   const std::vector<std::vector<std::string>> alpha = {
       /*protocol*/ {"http", "s", "a", "A", "+", "-", ".", "1", ":", "\t", " ", EACUTE, "%41", "/"},
       /*username*/ {"a", "A", "%", "%41", " ", ":", "@", "/", "?", "#", "|", "~", "'", EACUTE, "\t", "{"},
